@@ -148,6 +148,7 @@ struct Global {
     void *obs_ud = nullptr;
     // fault arming
     int pushref_mode = 0;
+    size_t default_stack = 0;
     double pushref_p = 0;
     bool pushref_next = false;
     // pages
@@ -632,7 +633,7 @@ void begin(const Plan &plan) {
     G.stats = Stats();
     G.steps = 0; G.tail = false;
     G.choice_idx = 0; G.rec.clear(); G.choice_hash = 0;
-    G.pushref_mode = 0; G.pushref_next = false;
+    G.pushref_mode = 0; G.pushref_next = false; G.default_stack = 0;
     G.pages.clear(); G.page_pos.clear(); G.pages_total = 0;
     for (void *q : G.pool) __real_free(q);
     for (void *q : G.pool_taken) __real_free(q);
@@ -735,6 +736,7 @@ Stats end() {
 void set_create_fail(int nth, int err) { if (tl_self) { tl_self->create_fail_n = nth; tl_self->create_fail_err = err; } }
 void set_mutex_init_fail(int nth, int err) { if (tl_self) { tl_self->mutex_init_fail_n = nth; tl_self->mutex_init_fail_err = err; } }
 void set_affinity_fail(int nth, int err) { if (tl_self) { tl_self->aff_fail_n = nth; tl_self->aff_fail_err = err; } }
+void set_default_stack(size_t bytes) { G.default_stack = bytes; }
 void set_attr_fail(int which, int err) { if (tl_self) { tl_self->attr_fail_which = which; tl_self->attr_fail_err = err; } }
 int backtrace_mode() { return G.run_active ? G.backtrace_mode : 0; }
 // Objects without an init/destroy hook (atomics) are identified by address. When the code under test frees memory that came from the real
@@ -1124,7 +1126,13 @@ int __real_pthread_attr_init(pthread_attr_t *);
 int __real_pthread_attr_setstacksize(pthread_attr_t *, size_t);
 int __real_pthread_attr_getstacksize(const pthread_attr_t *, size_t *);
 int __real_backtrace(void **, int);
-int __wrap_pthread_attr_init(pthread_attr_t *a) { int e = attr_fault(1); return e ? e : __real_pthread_attr_init(a); }
+int __wrap_pthread_attr_init(pthread_attr_t *a) {
+    int e = attr_fault(1);
+    if (e) return e;
+    e = __real_pthread_attr_init(a);
+    if (!e && sim::active() && G.default_stack) __real_pthread_attr_setstacksize(a, G.default_stack); // a system with a small default (musl: 128 KiB)
+    return e;
+}
 int __wrap_pthread_attr_setstacksize(pthread_attr_t *a, size_t n) { int e = attr_fault(2); return e ? e : __real_pthread_attr_setstacksize(a, n); }
 int __wrap_pthread_attr_getstacksize(const pthread_attr_t *a, size_t *n) { int e = attr_fault(3); return e ? e : __real_pthread_attr_getstacksize(a, n); }
 int __wrap_backtrace(void **buf, int n) {
